@@ -157,6 +157,60 @@ pub const SLOTS: usize = 64;
 const Z: AtomicU64 = AtomicU64::new(0);
 pub static INFLIGHT: [AtomicU64; SLOTS] = [Z; SLOTS];
 pub static INFLIGHT_FD: AtomicU64 = AtomicU64::new(u64::MAX);
+/// violations already confirmed (shrunk, replay file written) in this worker: (property, replay path, driver, message)
+pub static CONFIRMED: Mutex<Vec<(String, String, String, String)>> = Mutex::new(Vec::new());
+/// when (milliseconds since the worker started) the case in the slot last started a test execution
+pub static INFLIGHT_SINCE: [AtomicU64; SLOTS] = [Z; SLOTS];
+fn now_ms() -> u64 {
+    static T0: std::sync::OnceLock<Instant> = std::sync::OnceLock::new();
+    T0.get_or_init(Instant::now).elapsed().as_millis() as u64
+}
+/// called at the start of every test execution (also of each shrink candidate): resets the stall clock
+pub fn touch() {
+    let slot = MY_SLOT.try_with(|c| c.get()).unwrap_or(usize::MAX);
+    if slot < SLOTS {
+        INFLIGHT_SINCE[slot].store(now_ms(), Ordering::Relaxed);
+    }
+}
+/// Stall monitor of the worker: a test execution that has not returned for `limit_s` seconds is presumed
+/// hung (threads cannot be killed): the tags of the stalled cases go to `file`, the process exits with
+/// status 3, and the supervisor restarts the worker without those cases. A hang is never a violation; the
+/// restarted run reports the violations other cases show, and otherwise the check ends inconclusive.
+pub fn start_stall_monitor(limit_s: u64, file: std::path::PathBuf) {
+    now_ms();
+    std::thread::Builder::new()
+        .name("stall-monitor".into())
+        .spawn(move || loop {
+            std::thread::sleep(std::time::Duration::from_millis(500));
+            let now = now_ms();
+            let mut stalled = Vec::new();
+            for i in 0..SLOTS {
+                let tag = INFLIGHT[i].load(Ordering::Relaxed);
+                let since = INFLIGHT_SINCE[i].load(Ordering::Relaxed);
+                if tag != 0 && since != 0 && now.saturating_sub(since) > limit_s * 1000 && INFLIGHT[i].load(Ordering::Relaxed) == tag {
+                    stalled.push(tag);
+                }
+            }
+            if !stalled.is_empty() {
+                // violations this worker has already confirmed stand whatever the hung cases would have shown
+                if let Ok(c) = CONFIRMED.try_lock() {
+                    if !c.is_empty() {
+                        for (prop, replay, driver, msg) in c.iter() {
+                            println!("VIOLATION property={prop} replay={replay}");
+                            println!("  driver={driver} message={msg}");
+                        }
+                        diag(&format!("[stall] {} test execution(s) have not returned for {limit_s}s; reporting the {} violation(s) confirmed so far", stalled.len(), c.len()));
+                        std::process::exit(1);
+                    }
+                }
+                let txt = stalled.iter().map(|t| t.to_string()).collect::<Vec<_>>().join(",");
+                let _ = std::fs::write(&file, &txt);
+                diag(&format!("[stall] {} test execution(s) have not returned for {limit_s}s (cases {}): presumed hung, leaving them out", stalled.len(), stalled.iter().map(|t| format!("{}:{}", t >> 48, (t & 0xffff_ffff_ffff) - 1)).collect::<Vec<_>>().join(" ")));
+                std::process::exit(3);
+            }
+        })
+        .expect("spawn stall monitor");
+}
 /// fd for the harness's own diagnostics (the original stderr); 2 if not redirected
 pub static DIAG_FD: AtomicU64 = AtomicU64::new(2);
 pub fn diag(msg: &str) {
@@ -364,6 +418,7 @@ impl Ctx {
             let first = std::cell::RefCell::new(first);
             let r = runner.run(strat, |c| {
                 let mut info = Info::default();
+                touch();
                 let v = match util::catch(|| test(&c, &mut info)) {
                     Ok(v) => v,
                     Err(p) => Verdict::Fail(format!("PANIC (uncaught by driver): {p}")),
@@ -403,7 +458,8 @@ impl Ctx {
                 Err(e) => return Verdict::Fail(format!("harness: cannot decode replay case: {e}")),
             };
             let mut info = Info::default();
-            let v = match util::catch(|| test(&c, &mut info)) {
+            touch();
+                let v = match util::catch(|| test(&c, &mut info)) {
                 Ok(v) => v,
                 Err(p) => Verdict::Fail(format!("PANIC (uncaught by driver): {p}")),
             };
@@ -430,7 +486,8 @@ impl Ctx {
                 d(serde_json::to_value(&c).unwrap_or(Value::Null));
             }
             let mut info = Info::default();
-            let v = match util::catch(|| test(&c, &mut info)) {
+            touch();
+                let v = match util::catch(|| test(&c, &mut info)) {
                 Ok(v) => v,
                 Err(p) => Verdict::Fail(format!("PANIC (uncaught by driver): {p}")),
             };
@@ -445,7 +502,8 @@ impl Ctx {
                 Err(e) => return Verdict::Fail(format!("harness: cannot decode replay case: {e}")),
             };
             let mut info = Info::default();
-            let v = match util::catch(|| test(&c, &mut info)) {
+            touch();
+                let v = match util::catch(|| test(&c, &mut info)) {
                 Ok(v) => v,
                 Err(p) => Verdict::Fail(format!("PANIC (uncaught by driver): {p}")),
             };
@@ -546,6 +604,7 @@ impl Ctx {
                                     loc.skipped += 1;
                                     continue;
                                 }
+                                INFLIGHT_SINCE[tid].store(now_ms().max(1), Ordering::Relaxed);
                                 INFLIGHT[tid].store(tag, Ordering::Relaxed);
                                 let mut first = |c: &C, info: &Info, v: &Verdict| {
                                     loc.evaluations += 1;
@@ -638,6 +697,7 @@ impl Ctx {
                 "index": idx, "message": msg, "case": case});
             let _ = std::fs::write(&path, serde_json::to_vec_pretty(&doc).unwrap());
             diag(&format!("[{}] {driver}: violation at case {idx}: {msg}", self.prop));
+            CONFIRMED.lock().unwrap().push((self.prop.to_string(), path.display().to_string(), driver.to_string(), msg.clone()));
             self.violations.push(Violation { driver: driver.to_string(), message: msg, replay: path });
         }
     }
@@ -668,6 +728,7 @@ impl Ctx {
             "message": msg, "case": case});
         let _ = std::fs::write(&path, serde_json::to_vec_pretty(&doc).unwrap());
         diag(&format!("[{}] {driver}: violation: {msg}", self.prop));
+        CONFIRMED.lock().unwrap().push((self.prop.to_string(), path.display().to_string(), driver.to_string(), msg.clone()));
         self.violations.push(Violation { driver: driver.to_string(), message: msg, replay: path });
     }
 
